@@ -74,7 +74,7 @@ class Result:
 
 
 class Frame:
-    __slots__ = ('fname', 'fn', 'uid', 'depth', 'visits', 'havoced')
+    __slots__ = ('fname', 'fn', 'uid', 'depth', 'visits', 'havoced', 'passes')
 
     def __init__(self, fname, fn, uid, depth):
         self.fname = fname
@@ -83,11 +83,13 @@ class Frame:
         self.depth = depth
         self.visits = {}
         self.havoced = set()
+        self.passes = {}
 
     def copy(self):
         f = Frame(self.fname, self.fn, self.uid, self.depth)
         f.visits = dict(self.visits)
         f.havoced = set(self.havoced)
+        f.passes = dict(self.passes)
         return f
 
 
@@ -99,7 +101,7 @@ def type_bits(ty):
 class Interp:
     def __init__(self, facts, opaque=(), sym_facts=None, max_depth=14, skip_asserts=('misaligned', 'null_deref'),
                  models=None, step_limit=200000, revisit_limit=4, trust_asserts=(), on_call=None, dyn_filter=None,
-                 loop_mode='abort', path_budget=20000, opaque_havoc=None, precise=False):
+                 loop_mode='abort', path_budget=20000, opaque_havoc=None, precise=False, extra_iterations=0):
         self.facts = facts
         # precise: undecided asserts / infeasible paths are settled with the exact bit-level path condition (gbsa.bvproof)
         # before falling back to forking: removes false paths the interval x known-bits domain cannot exclude
@@ -120,6 +122,9 @@ class Interp:
         self.dyn_filter = dyn_filter
         self.opaque_havoc = opaque_havoc or {}   # opaque callee -> arg indexes whose pointees it may write
         self.loop_mode = loop_mode      # 'abort' | 'havoc'
+        # havoc mode: number of further passes through a loop head after the summarised one before the path is cut
+        # (1 = two consecutive iterations are executed from the summarised state)
+        self.extra_iterations = extra_iterations
         self.path_budget = path_budget
         self.paths_done = 0
         self._loops = {}
@@ -379,6 +384,12 @@ class Interp:
                     cur = st.mem.get(root)
                     if cur is not None and cur[0] in ('ref', 'slice', 'fn'):
                         continue
+                    if cur is not None and not p['proj'] and is_iterator_value(cur) and \
+                            not (cur[1][0] == 'adt' and cur[1][1].endswith('ops::Range')):
+                        nv = self.havoc_iterator(st, tag, p['local'], cur)
+                        if nv is not None:
+                            st.mem[root] = nv
+                            continue
                     if cur is not None and cur[0] == 'agg' and cur[1][0] == 'adt' and cur[1][1].endswith('ops::Range') \
                             and len(cur[2]) == 2 and is_int(cur[2][0]) and is_int(cur[2][1]) and not p['proj']:
                         # an iterated Range: only `start` advances, and it stays within [start0, end]
@@ -387,6 +398,7 @@ class Interp:
                         st.env.assume_eq(O(1, 'ule', s0, ns), 1)
                         st.env.assume_eq(O(1, 'ule', ns, end), 1)
                         st.mem[root] = ('agg', cur[1], (ns, end))
+                        st.events.append(('loopinit', ns, s0, end))
                         continue
                     ns_ = S(type_bits(ty), 'loopvar:%s:_%d' % (tag, p['local']))
                     mono = self._monotone(fn, body, p['local']) if (not p['proj'] and cur is not None and is_int(cur)
@@ -396,11 +408,65 @@ class Interp:
                     elif mono == 'down':
                         st.env.assume_eq(O(1, 'ule', ns_, cur), 1)
                     st.mem[root] = ns_
+                    if not p['proj'] and cur is not None and is_int(cur):
+                        st.events.append(('loopinit', ns_, cur, None))
                 else:
                     last = [(e['owner'], e['name']) for e in p['proj'] if e['k'] == 'field' and e['owner']]
                     if last:
                         fields.add(last[-1])
         self.wrap_havoc(st, fields, unknown, tag)
+
+    def havoc_iterator(self, st, tag, local, v, sfx=''):
+        """loop-head summary of a modelled iterator value held in a local: only its position advances, within its bounds"""
+        k = v[1]
+        name = 'loopvar:%s:_%d%s' % (tag, local, sfx)
+        if k[0] == 'adt' and k[1].endswith('ops::Range') and len(v[2]) == 2 and is_int(v[2][0]) and is_int(v[2][1]):
+            s0, end = v[2]
+            ns = S(s0[1], name + '.start')
+            st.env.assume_eq(O(1, 'ule', s0, ns), 1)
+            st.env.assume_eq(O(1, 'ule', ns, end), 1)
+            st.events.append(('loopinit', ns, s0, end))
+            return ('agg', k, (ns, end))
+        if k == IT_SLICE:
+            sl, pos = v[2]
+            ns = S(64, name + '.pos')
+            st.env.assume_eq(O(1, 'ule', pos, ns), 1)
+            st.env.assume_eq(O(1, 'ule', ns, sl[4]), 1)
+            st.events.append(('loopinit', ns, pos, sl[4]))
+            return ('agg', k, (sl, ns))
+        if k == IT_ENUM:
+            inner, count = v[2]
+            ni = self.havoc_iterator(st, tag, local, inner, sfx + '.iter')
+            if ni is None:
+                return None
+            pos0 = inner[2][0] if ni[1] != IT_SLICE else inner[2][1]
+            npos = ni[2][0] if ni[1] != IT_SLICE else ni[2][1]
+            if ni[1] in (IT_SLICE,) or (ni[1][0] == 'adt' and ni[1][1].endswith('ops::Range')):
+                if is_int(pos0) and is_int(count) and pos0 == count and npos[1] == 64:
+                    return ('agg', k, (ni, npos))          # the count and the position advance together
+            nc = S(64, name + '.count')
+            st.env.assume_eq(O(1, 'ule', count, nc), 1)
+            st.events.append(('loopinit', nc, count, None))
+            return ('agg', k, (ni, nc))
+        if k == IT_REV:
+            inner = v[2][0]
+            if inner[0] == 'agg' and inner[1][0] == 'adt' and inner[1][1].endswith('ops::Range') and len(inner[2]) == 2 \
+                    and is_int(inner[2][0]) and is_int(inner[2][1]):
+                start, end = inner[2]
+                ne = S(end[1], name + '.end')
+                st.env.assume_eq(O(1, 'ule', start, ne), 1)
+                st.env.assume_eq(O(1, 'ule', ne, end), 1)
+                st.events.append(('loopinit', ne, end, start))
+                return ('agg', k, (('agg', inner[1], (start, ne)),))
+            return None
+        if k == IT_RINC:
+            cur, last, done = v[2]
+            ns = S(cur[1], name + '.start')
+            nd = S(1, name + '.exhausted')
+            st.env.assume_eq(O(1, 'ule', cur, ns), 1)
+            st.events.append(('loopinit', ns, cur, last))
+            return ('agg', k, (ns, last, nd))
+        return None
 
     def _monotone(self, fn, body, local):
         """'up' / 'down' when every assignment to `local` inside the loop body is local = local (+|-) x with the checked
@@ -942,7 +1008,7 @@ class Interp:
             st.mem[('L', fr.uid, i + 1)] = a
         nloc = len(fn['locals'])
         for r in self.exec_from(fr, 0, st):
-            if r.status == 'ok':
+            if r.status == 'ok' and depth > 0:       # the entry frame's locals stay readable in the result
                 m = r.state.mem
                 for i in range(nloc):
                     m.pop(('L', fr.uid, i), None)
@@ -957,10 +1023,15 @@ class Interp:
                 return
             if self.loop_mode == 'havoc' and bb in self.loops_of(fr.fname):
                 if bb in fr.havoced:
-                    # back at the head: this iteration is covered by the havoced state
-                    yield Result('loopback', None, st, (fr.fname, 0, bb), 'loop iteration')
-                    return
-                if self._loop_needs_havoc(st, fr, bb):
+                    fr.passes[bb] = fr.passes.get(bb, 0) + 1
+                    if fr.passes[bb] > self.extra_iterations:
+                        # back at the head: this iteration is covered by the havoced state
+                        yield Result('loopback', None, st, (fr.fname, 0, bb), 'loop iteration')
+                        return
+                    st.events.append(('iteration', fr.fname, bb, fr.passes[bb],
+                                      tuple(sorted(((k[2], v) for k, v in st.mem.items()
+                                                    if k[0] == 'L' and k[1] == fr.uid), key=lambda kv: kv[0]))))
+                elif self._loop_needs_havoc(st, fr, bb):
                     fr.havoced.add(bb)
                     self.havoc_loop(st, fr, bb)
             block = fn['blocks'][bb]
@@ -1051,7 +1122,13 @@ class Interp:
                     continue
                 if k == 'call':
                     nxt = t['target']
-                    for (ret, st2, status, detail) in self.do_call(st, fr, t, site):
+                    outs = list(self.do_call(st, fr, t, site))
+                    if len([o for o in outs if o[2] == 'ok']) > 1 and fr.visits[bb] > self.revisit_limit:
+                        # a modelled call that forks (Range::next, Option-returning helpers) inside a loop that is
+                        # being unrolled: same treatment as an undecided switch
+                        yield Result('loop', None, st, site, 'undecided branch inside a loop')
+                        return
+                    for (ret, st2, status, detail) in outs:
                         if status != 'ok':
                             yield Result(status, None, st2, site, detail)
                             continue
@@ -1232,6 +1309,9 @@ class Interp:
                     else:
                         yield (None, r.state, r.status, (r.where, r.detail))
                 return
+        yield from self.unknown_external(st, callee, args, site, dest_ty, t)
+
+    def unknown_external(self, st, callee, args, site, dest_ty, t):
         # unknown external callee: havoc what it may write, return a fresh symbol
         st.events.append(('extcall', callee, tuple(args), site, snapshot_args(self, st, args)))
         for a in args:
@@ -1266,6 +1346,8 @@ class Interp:
         for key, fn in self.models.items():
             if key.endswith('*') and callee.startswith(key[:-1]):
                 return fn
+        if callee.startswith('<') and callee.endswith(' as std::iter::Iterator>::next'):
+            return m_iter_next
         return None
 
     def dyn_call(self, st, fr, t, args, site, dest_ty):
@@ -1764,9 +1846,178 @@ def m_range_next(ip, st, fr, t, args, site, dest_ty):
     else:
         s2 = st.copy()
         if s2.env.assume_eq(cond, 1):
+            s2.decisions.append((cond, 'Some', site))
             yield (take(s2), s2, 'ok', None)
         if st.env.assume_eq(cond, 0):
+            st.decisions.append((cond, 'None', site))
             yield (('agg', none_kind, ()), st, 'ok', None)
+
+
+# ---- iterators over slices / ranges (the adaptor chains a `for` loop is usually written with)
+IT_SLICE = ('adt', 'gbsa::iter::Slice', 0, 'Slice')            # (slice view, position)
+IT_ENUM = ('adt', 'gbsa::iter::Enumerate', 0, 'Enumerate')     # (inner iterator, count)
+IT_REV = ('adt', 'gbsa::iter::Rev', 0, 'Rev')                  # (inner iterator,)
+IT_RINC = ('adt', 'gbsa::iter::RangeInclusive', 0, 'RangeInclusive')   # (next value, last value, exhausted)
+SOME = ('adt', 'std::option::Option', 1, 'Some')
+NONE = ('adt', 'std::option::Option', 0, 'None')
+
+
+def is_iterator_value(v):
+    return v is not None and v[0] == 'agg' and (v[1] in (IT_SLICE, IT_ENUM, IT_REV, IT_RINC) or
+                                                (v[1][0] == 'adt' and v[1][1].endswith('ops::Range') and len(v[2]) == 2))
+
+
+def iter_steps(v):
+    """the possible outcomes of one `next()` on an iterator value: [(condition term or None, item or None, new value)];
+    the conditions are exhaustive and exclusive. None when the value is not a modelled iterator"""
+    if v is None or v[0] != 'agg':
+        return None
+    k = v[1]
+    if k[0] == 'adt' and k[1].endswith('ops::Range') and len(v[2]) == 2 and is_int(v[2][0]) and is_int(v[2][1]):
+        start, end = v[2]
+        return [(O(1, 'ult', start, end), start, ('agg', k, (O(start[1], 'add', start, C(start[1], 1)), end))),
+                (O(1, 'uge', start, end), None, v)]
+    if k == IT_SLICE:
+        sl, pos = v[2]
+        _, root, path, off, ln = sl
+        item = ('ref', root, path + (('i', O(64, 'add', off, pos), 'u8'),))
+        return [(O(1, 'ult', pos, ln), item, ('agg', k, (sl, O(64, 'add', pos, C(64, 1))))),
+                (O(1, 'uge', pos, ln), None, v)]
+    if k == IT_RINC:
+        cur, last, done = v[2]
+        w = cur[1]
+        if done == C(1, 1):
+            return [(None, None, v)]
+        if done == C(1, 0):
+            live = lambda c: c
+            dead = lambda c: c
+        else:
+            nd = O(1, 'xor', done, C(1, 1))
+            live = lambda c: O(1, 'and', nd, c)
+            dead = lambda c: O(1, 'or', done, c)
+        return [(live(O(1, 'ult', cur, last)), cur, ('agg', k, (O(w, 'add', cur, C(w, 1)), last, C(1, 0)))),
+                (live(O(1, 'eq', cur, last)), cur, ('agg', k, (cur, last, C(1, 1)))),
+                (dead(O(1, 'ugt', cur, last)), None, v)]
+    if k == IT_ENUM:
+        inner, count = v[2]
+        sub = iter_steps(inner)
+        if sub is None:
+            return None
+        out = []
+        for cond, item, new in sub:
+            if item is None:
+                out.append((cond, None, ('agg', k, (new, count))))
+            else:
+                out.append((cond, ('agg', ('tuple',), (count, item)),
+                            ('agg', k, (new, O(64, 'add', count, C(64, 1))))))
+        return out
+    if k == IT_REV:
+        inner = v[2][0]
+        if inner[0] == 'agg' and inner[1][0] == 'adt' and inner[1][1].endswith('ops::Range') and len(inner[2]) == 2 \
+                and is_int(inner[2][0]) and is_int(inner[2][1]):
+            start, end = inner[2]
+            e1 = O(end[1], 'sub', end, C(end[1], 1))
+            return [(O(1, 'ult', start, end), e1, ('agg', k, (('agg', inner[1], (start, e1)),))),
+                    (O(1, 'uge', start, end), None, v)]
+        if inner[0] == 'agg' and inner[1] == IT_SLICE and inner[2][1] == C(64, 0):
+            # a reversed slice iterator that has not been advanced from the front: walk the length down
+            sl, pos = inner[2]
+            _, root, path, off, ln = sl
+            l1 = O(64, 'sub', ln, C(64, 1))
+            item = ('ref', root, path + (('i', O(64, 'add', off, l1), 'u8'),))
+            return [(O(1, 'ugt', ln, C(64, 0)), item, ('agg', k, (('agg', IT_SLICE, (('slice', root, path, off, l1), pos)),))),
+                    (O(1, 'eq', ln, C(64, 0)), None, v)]
+        return None
+    return None
+
+
+def m_iter_next(ip, st, fr, t, args, site, dest_ty):
+    r = args[0]
+    cur = ip.read(st, r[1], r[2]) if (r is not None and r[0] == 'ref') else None
+    steps = iter_steps(cur)
+    if steps is None:
+        yield from ip.unknown_external(st, t['resolved'] or t['callee'], args, site, dest_ty, t)
+        return
+    live = []
+    for cond, item, new in steps:
+        cv = st.env.const_of(cond) if cond is not None else 1
+        if cv == 0:
+            continue
+        live.append((cond, item, new, cv))
+    n = len(live)
+    for j, (cond, item, new, cv) in enumerate(live):
+        s2 = st if j == n - 1 else st.copy()
+        if cv != 1:
+            if not s2.env.assume_eq(cond, 1):
+                continue
+            if n > 1:
+                s2.decisions.append((cond, 'Some' if item is not None else 'None', site))
+        ip.write(s2, r[1], r[2], new, site)
+        yield ((('agg', SOME, (item,)) if item is not None else ('agg', NONE, ())), s2, 'ok', None)
+
+
+def m_slice_iter(ip, st, fr, t, args, site, dest_ty):
+    view = _as_view(ip, st, args[0])
+    if view is None:
+        yield from ip.unknown_external(st, t['resolved'] or t['callee'], args, site, dest_ty, t)
+        return
+    root, path, off, ln = view
+    yield (('agg', IT_SLICE, (('slice', root, path, off, ln), C(64, 0))), st, 'ok', None)
+
+
+def m_enumerate(ip, st, fr, t, args, site, dest_ty):
+    if is_iterator_value(args[0]):
+        yield (('agg', IT_ENUM, (args[0], C(64, 0))), st, 'ok', None)
+    else:
+        yield from ip.unknown_external(st, t['resolved'] or t['callee'], args, site, dest_ty, t)
+
+
+def m_rev(ip, st, fr, t, args, site, dest_ty):
+    if is_iterator_value(args[0]) and iter_steps(('agg', IT_REV, (args[0],))) is not None:
+        yield (('agg', IT_REV, (args[0],)), st, 'ok', None)
+    else:
+        yield from ip.unknown_external(st, t['resolved'] or t['callee'], args, site, dest_ty, t)
+
+
+def m_range_inclusive_new(ip, st, fr, t, args, site, dest_ty):
+    a, b = args
+    if is_int(a) and is_int(b):
+        yield (('agg', IT_RINC, (a, b, C(1, 0))), st, 'ok', None)
+    else:
+        yield from ip.unknown_external(st, t['resolved'] or t['callee'], args, site, dest_ty, t)
+
+
+def m_slice_is_empty(ip, st, fr, t, args, site, dest_ty):
+    view = _as_view(ip, st, args[0])
+    if view is not None:
+        yield (O(1, 'eq', view[3], C(64, 0)), st, 'ok', None)
+    else:
+        yield (st.fresh(1, 'is_empty'), st, 'ok', None)
+
+
+def m_slice_get(ip, st, fr, t, args, site, dest_ty):
+    """<[T]>::get(i) for a usize index: Some(&self[i]) when i < len, None otherwise"""
+    base, idx = args
+    view = _as_view(ip, st, base)
+    if view is None or idx is None or not is_int(idx):
+        yield from ip.unknown_external(st, t['resolved'] or t['callee'], args, site, dest_ty, t)
+        return
+    root, path, off, ln = view
+    cond = O(1, 'ult', idx, ln)
+    cv = st.env.const_of(cond)
+    some = ('agg', SOME, (('ref', root, path + (('i', O(64, 'add', off, idx), 'u8'),)),))
+    if cv == 1:
+        yield (some, st, 'ok', None)
+    elif cv == 0:
+        yield (('agg', NONE, ()), st, 'ok', None)
+    else:
+        s2 = st.copy()
+        if s2.env.assume_eq(cond, 1):
+            s2.decisions.append((cond, 'Some', site))
+            yield (some, s2, 'ok', None)
+        if st.env.assume_eq(cond, 0):
+            st.decisions.append((cond, 'None', site))
+            yield (('agg', NONE, ()), st, 'ok', None)
 
 
 def m_mem_replace(ip, st, fr, t, args, site, dest_ty):
@@ -1966,6 +2217,14 @@ STD_MODELS = {
     'std::array::<impl std::ops::IndexMut<I> for [T; N]>::index_mut': m_index,
     '<I as std::iter::IntoIterator>::into_iter': m_identity,
     'std::iter::range::<impl std::iter::Iterator for std::ops::Range<A>>::next': m_range_next,
+    'core::slice::<impl [T]>::iter': m_slice_iter,
+    'core::slice::<impl [T]>::iter_mut': m_slice_iter,
+    'core::slice::<impl [T]>::is_empty': m_slice_is_empty,
+    'core::slice::<impl [T]>::get': m_slice_get,
+    'core::slice::<impl [T]>::get_mut': m_slice_get,
+    'std::iter::Iterator::enumerate': m_enumerate,
+    'std::iter::Iterator::rev': m_rev,
+    'std::ops::RangeInclusive::<Idx>::new': m_range_inclusive_new,
     'std::mem::replace': m_mem_replace,
     'std::boxed::Box::<T>::new': m_box_new,
     'std::hint::must_use': m_identity,
